@@ -202,6 +202,29 @@ theorem retainLoopW_rows :
       rw [hr1] at ih
       exact ⟨ih.1, ih.2.1, ih.2.2.1, ih.2.2.2.1, ih.2.2.2.2.1, same_trans _ _ _ hs1 ih.2.2.2.2.2⟩
 
+theorem touched_dropT (c : Cols) (ev : Ev) (made : List Nat) (i : Nat) : (touched touch c ev made i).2.1.dropT = ev.dropT := by
+  unfold touched
+  split
+  · show ev.dropT ++ (Model.writeLeaf c _ i _).2.1.dropT = ev.dropT
+    unfold Model.writeLeaf
+    split <;> simp
+  · rfl
+
+/-- the loop itself runs no destructor of the struct (only the final `truncate` does) -/
+theorem retainLoopW_dropT :
+    ∀ (fuel i del : Nat) (c : Cols) (vis : List (List Nat)) (ev : Ev) (made : List Nat),
+      (Model.retainLoop keep boom touch fuel i del c vis ev made).ev.dropT = ev.dropT
+  | 0, i, del, c, vis, ev, made => by simp [Model.retainLoop]
+  | fuel + 1, i, del, c, vis, ev, made => by
+    rw [retainLoop_succ]
+    split
+    · exact touched_dropT touch c ev made i
+    · split
+      · rw [retainLoopW_dropT]; exact touched_dropT touch c ev made i
+      · split
+        · rw [retainLoopW_dropT]; exact touched_dropT touch c ev made i
+        · rw [retainLoopW_dropT]; exact touched_dropT touch c ev made i
+
 end retainw
 
 end Soa.Lp
